@@ -109,3 +109,7 @@ fn update_restarts_sequence() {
     // Update should start at the minimum trusted key ID on the other side.
     assert_eq!(*state.next_key_id(), 3);
 }
+
+#[cfg(all(aws_s2n_quic_verif, any(test, kani)))]
+#[path = "/verif/harness/dc/sender.rs"]
+mod verif;
